@@ -3,39 +3,61 @@
 (* rten_generate::Generator over the recording mock model.  The abstract      *)
 (* state is that of the Generator contract; every `op` record is explained by *)
 (* the contract action of the same name, and what the real code did (the      *)
-(* mock's submission log, prev_tokens()) is judged against what the contract  *)
-(* action specifies.  The state always advances on the specified successor.   *)
+(* mock's submission log, prev_tokens(), kv_cache_len()) is judged against    *)
+(* what the contract action specifies.  The state always advances on the      *)
+(* specified successor.                                                       *)
+(*                                                                            *)
+(* Histories are replayed in lexicographic order; a case whose first `keep`   *)
+(* calls equal those of the previous case (same model variant) carries `op`   *)
+(* records only for the calls after them: those first calls were judged in    *)
+(* the previous case, and the contract state reached after them is restored   *)
+(* from `saved` (one snapshot per call of the current path, so its size is    *)
+(* bounded by the history length, not by the trace length).                   *)
 EXTENDS Generator, TraceLib
 
 VARIABLES l, nbad, ncase, k,
           prevObs,   \* prev_tokens() as observed after the previous call of the case
+          saved,     \* saved[d + 1] = snapshot after d calls of the current path
           nopen,     \* next() calls with nothing pending (outcome left open)
-          nacc       \* accessor cross-checks (prompt(), kv_cache_len(), mask) that disagree
+          nacc,      \* cross-checks outside the property (prompt(), mask, constant input) that disagree
+          nops
 
 e == Rec[l]
 
+Snapshot(pe, po, ve, pr, ru, nu, cl, dn, ob) ==
+  [pending |-> pe, pos |-> po, ver |-> ve, prev |-> pr, runs |-> ru, nuid |-> nu, cleared |-> cl, done |-> dn, obs |-> ob]
+Fresh == Snapshot(<<>>, 0, 0, <<>>, <<>>, 0, {}, FALSE, <<>>)
+
 TInit == /\ l = 1 /\ nbad = NoBad /\ ncase = 0 /\ k = [ev |-> "none"]
-         /\ prevObs = <<>> /\ nopen = 0 /\ nacc = 0
+         /\ prevObs = <<>> /\ nopen = 0 /\ nacc = 0 /\ nops = 0 /\ saved = <<Fresh>>
          /\ kv = FALSE /\ pending = <<>> /\ pos = 0 /\ ver = 0 /\ prev = <<>>
          /\ runs = <<>> /\ nuid = 0 /\ cleared = {} /\ hist = <<>> /\ done = FALSE
 
 Case == /\ e.ev = "case"
-        /\ k' = e /\ ncase' = ncase + 1 /\ prevObs' = <<>>
-        /\ kv' = e.kv /\ pending' = <<>> /\ pos' = 0 /\ ver' = 0 /\ prev' = <<>>
-        /\ runs' = <<>> /\ nuid' = 0 /\ cleared' = {} /\ hist' = <<>> /\ done' = FALSE
-        /\ UNCHANGED <<nbad, nopen, nacc>>
+        /\ k' = e /\ ncase' = ncase + 1
+        /\ LET \* keep > 0 only continues the previous case of the same pass
+               d == IF e.keep = 0 \/ e.kv # kv THEN 0
+                    ELSE IF e.keep + 1 <= Len(saved) THEN e.keep ELSE Len(saved) - 1
+               s == IF d = 0 THEN Fresh ELSE saved[d + 1]
+           IN /\ saved' = IF d = 0 THEN <<Fresh>> ELSE SubSeq(saved, 1, d + 1)
+              /\ kv' = e.kv /\ pending' = s.pending /\ pos' = s.pos /\ ver' = s.ver /\ prev' = s.prev
+              /\ runs' = s.runs /\ nuid' = s.nuid /\ cleared' = s.cleared /\ done' = s.done
+              /\ prevObs' = s.obs /\ hist' = <<>>
+        /\ UNCHANGED <<nbad, nopen, nacc, nops>>
 
 \* ---- what the contract specifies for a run from the current state ----
 ExpIds == TokOf(pending)
 ExpPos == LET sub == Submission(pending, kv, pos) IN [i \in DOMAIN sub |-> sub[i].pos]
+ExpFirst == IF kv THEN pos ELSE 0
 ExpCache == TokOf(Subs(runs))        \* tokens the cache must hold (KV case)
 
-\* x = what the mock found in KV-cache input number i (len = -1: input absent)
-SlotOk(x, i, cache) ==
-  /\ x.len = pos
-  /\ Len(x.toks) = k.heads /\ \A h \in DOMAIN x.toks : x.toks[h] = cache
-  /\ \A v \in Range(x.vers) : v = ver      \* every row comes from the cache returned last
-  /\ \A t \in Range(x.tags) : t = i - 1    \* and from the same layer / key-value slot
+\* x = what the mock found in its KV-cache inputs (lens[i] = -1: input absent)
+CacheOk(x, cache) ==
+  IF ~kv THEN x.lens = <<>>
+  ELSE /\ Len(x.lens) = k.slots /\ \A i \in DOMAIN x.lens : x.lens[i] = pos
+       /\ \A i \in DOMAIN x.rows : x.rows[i] = cache      \* every head of every cache holds exactly the tokens fed so far
+       /\ \A i \in DOMAIN x.vers : x.vers[i] = ver        \* every row comes from the cache returned last
+       /\ \A i \in DOMAIN x.tags : x.tags[i][1] = x.tags[i][2]   \* and from the same layer / key-value slot
 
 \* class of the prev_tokens step, for the signature
 PrevClass(isRun) ==
@@ -45,66 +67,75 @@ PrevClass(isRun) ==
   ELSE "prompt_after_recorded_history"
 
 Mode == IF kv THEN "kv" ELSE "no_kv"
+\* has a token the model produced been dropped unfed (clear_prompt / with_prompt)?
+Dropped == IF \E i \in DOMAIN runs : \E j \in DOMAIN runs[i].out : runs[i].out[j].uid \in cleared
+           THEN "after_dropped_sampled_token" ELSE "plain"
 Sig(check, cls) == [op |-> e.op, check |-> check, cls |-> cls]
 Doc(delta) == [case |-> k, event |-> e,
                expect |-> [ids |-> ExpIds, pos |-> ExpPos, cache |-> ExpCache, ver |-> ver,
                            prev |-> prevObs \o delta]]
 
 \* calls that must not run the model
-Quiet ==
+Quiet(kvlenAfter) ==
   LET d == Doc(<<>>)
       b1 == Flag(nbad, e.outcome = "ok", Sig("outcome", Mode), d)
       b2 == Flag(b1, e.runs = <<>>, Sig("runs", Mode), d)
       b3 == Flag(b2, e.outcome = "ok" => e.prev = prevObs, Sig("prev_tokens", PrevClass(FALSE)), d)
-  IN /\ nbad' = b3
+      b4 == Flag(b3, e.outcome = "ok" => e.kvlen = kvlenAfter, Sig("kv_cache_len", Mode), d)
+  IN /\ nbad' = b4
      /\ prevObs' = IF e.outcome = "ok" THEN e.prev ELSE prevObs
      /\ UNCHANGED nopen
 
 \* calls that run the model once, submitting the pending tokens
-Judged(logits) ==
+Judged(logits, kvlenAfter) ==
   LET r == e.runs
       one == Len(r) = 1
       s == IF one /\ logits THEN r[1].chosen ELSE 0      \* the token the model produced
       delta == PrevDelta(pending, logits, s)
       cache == ExpCache
+      n == Len(pending)
       d == Doc(delta)
       b1 == Flag(nbad, e.outcome = "ok", Sig("outcome", Mode), d)
       b2 == Flag(b1, one, Sig("runs", Mode), d)
       b3 == Flag(b2, one => r[1].ids = ExpIds, Sig("submitted_ids", Mode), d)
-      b4 == Flag(b3, one => (r[1].pos = ExpPos /\ r[1].cpos = ExpPos), Sig("positions", Mode), d)
-      b5 == Flag(b4, one => IF kv THEN /\ Len(r[1].kv_in) = k.slots
-                                       /\ \A i \in DOMAIN r[1].kv_in : SlotOk(r[1].kv_in[i], i, cache)
-                            ELSE r[1].kv_in = <<>>,
-                 Sig("kv_cache", Mode), d)
+      \* position_ids, cache_position and the range handed to a varying input
+      b4 == Flag(b3, one => /\ r[1].pos = ExpPos /\ r[1].cpos = ExpPos
+                            /\ r[1].aux # <<>> => r[1].aux = <<ExpFirst, ExpFirst + n>>,
+                 Sig("positions", Dropped), d)
+      b5 == Flag(b4, one => CacheOk(r[1].kv_in, cache), Sig("kv_cache", Mode), d)
       b6 == Flag(b5, e.outcome = "ok" => e.prev = prevObs \o delta, Sig("prev_tokens", PrevClass(TRUE)), d)
-  IN /\ nbad' = b6
+      b7 == Flag(b6, e.outcome = "ok" => e.kvlen = kvlenAfter, Sig("kv_cache_len", Mode), d)
+  IN /\ nbad' = b7
      /\ prevObs' = IF e.outcome = "ok" THEN e.prev ELSE prevObs
      /\ UNCHANGED nopen
 
 ProducedTok == IF Len(e.runs) = 1 THEN e.runs[1].chosen ELSE 0
+KvLenIf(p) == IF kv THEN p ELSE 0 - 1
 
 Op == /\ e.ev = "op"
       /\ UNCHANGED <<ncase, k>>
-      /\ CASE e.op = "with_prompt" -> WithPrompt(e.toks) /\ Quiet
-           [] e.op = "append" -> AppendPrompt(e.toks) /\ Quiet
-           [] e.op = "clear" -> ClearPrompt /\ Quiet
-           [] e.op = "process" -> ProcessPrompt /\ Judged(FALSE)
+      /\ nops' = nops + 1
+      /\ CASE e.op = "with_prompt" -> WithPrompt(e.toks) /\ Quiet(KvLenIf(pos))
+           [] e.op = "append" -> AppendPrompt(e.toks) /\ Quiet(KvLenIf(pos))
+           [] e.op = "clear" -> ClearPrompt /\ Quiet(KvLenIf(pos))
+           [] e.op = "process" -> ProcessPrompt /\ Judged(FALSE, KvLenIf(pos + Len(pending)))
            [] e.op = "next" ->
                 IF pending = <<>>
                 THEN NextEmpty /\ nopen' = nopen + 1 /\ UNCHANGED <<nbad, prevObs>>
-                ELSE Next(ProducedTok) /\ Judged(TRUE)
-      \* accessors (not part of the property; a disagreement is reported as drift)
+                ELSE Next(ProducedTok) /\ Judged(TRUE, KvLenIf(pos + Len(pending)))
+      /\ saved' = Append(saved, Snapshot(pending', pos', ver', prev', runs', nuid', cleared', done', prevObs'))
+      \* cross-checks that are not part of the property (a disagreement is reported as drift)
       /\ nacc' = IF e.outcome = "ok" /\ ~done'
                     /\ (\/ e.prompt # TokOf(pending')
-                        \/ e.kvlen # (IF kv THEN pos' ELSE 0 - 1)
-                        \/ \E i \in DOMAIN e.runs : e.runs[i].mask # (IF kv THEN pos' ELSE Len(e.runs[i].ids)))
+                        \/ \E i \in DOMAIN e.runs : e.runs[i].mask # (IF kv THEN pos' ELSE Len(e.runs[i].ids))
+                        \/ \E i \in DOMAIN e.runs : e.runs[i].konst # (IF k.variant.extra THEN 77 ELSE 0 - 1))
                  THEN nacc + 1 ELSE nacc
 
 TNext == /\ l <= NRec /\ l' = l + 1 /\ (Case \/ Op)
 
 Report == l = NRec + 1 =>
             /\ ReportBad(nbad)
-            /\ Stat("cases", ncase)
+            /\ Stat("cases", ncase) /\ Stat("calls_judged", nops)
             /\ Stat("next_on_empty", nopen)
             /\ Stat("accessor_mismatch", nacc)
 =============================================================================
